@@ -447,6 +447,15 @@ def attr(base, name):
     while name in ('shape', 'ndim', 'size') and a[0] == 'app' and a[1] in ('cast', 'm:astype', 'copy', 'm:copy') and a[2] \
             and isinstance(a[2][0], Poly) and a[2][0].single_atom() is not None:
         a = a[2][0].single_atom()
+    if name == 'ndim' and a[0] == 'idx':
+        # x[np.newaxis], x[..., np.newaxis], x[np.newaxis, :, :]: one more axis per newaxis, nothing else changes
+        key = a[2]
+        items = list(key.items) if isinstance(key, Tup) else [key]
+        added = sum(1 for i in items if i == NONE)
+        rest_ok = all(i == NONE or i == ELLIPSIS or (isinstance(i, Slice) and i.lo in (NONE, None) and i.hi in (NONE, None)
+                                                     and i.step in (NONE, None)) for i in items)
+        if added and rest_ok:
+            return attr(Poly.atom(a[1]), 'ndim') + added
     return Poly.atom(('attr', a, name))
 
 
